@@ -103,6 +103,12 @@ func (e *FuncEnc) declareEvent(name string, sorts []string) string {
 	}
 	e.D.Axiom("nResp:"+fn, fmt.Sprintf("(forall ((t Trace) %s) (! (= (nResp (tr_cons t %s)) (+ (nResp t) %s)) :pattern ((tr_cons t %s))))", strings.Join(bs, " "), ev, inc, ev))
 	e.declareProjections(name, fn, bs, as, sorts, ev)
+	e.D.UF("nClose", []string{"Trace"}, "Int")
+	cinc := "0"
+	if strings.HasSuffix(strings.ReplaceAll(name, "emitted.", ""), "io.ReadCloser.Close") || strings.HasSuffix(name, "io.Closer.Close") {
+		cinc = "1"
+	}
+	e.D.Axiom("nClose:"+fn, fmt.Sprintf("(forall ((t Trace) %s) (! (= (nClose (tr_cons t %s)) (+ (nClose t) %s)) :pattern ((tr_cons t %s))))", strings.Join(bs, " "), ev, cinc, ev))
 	return fn
 }
 
@@ -120,7 +126,39 @@ func (e *FuncEnc) appendEvent(name string, args []string, sorts []string, guard 
 func (e *FuncEnc) encodeCall(in ssa.Instruction, c *ssa.CallCommon, res ssa.Value, guard string) {
 	savedReach := e.curReach
 	if guard != "true" {
-		e.curReach = e.define("dguard", "Bool", and(e.curReach, guard))
+		// a deferred call runs only if its defer statement was executed: the
+		// effects are merged under that condition
+		before := e.cur.clone()
+		g := e.define("dguard", "Bool", and(e.curReach, guard))
+		e.curReach = g
+		defer func() {
+			after := e.cur
+			merged := before.clone()
+			merged.epoch = after.epoch
+			keys := map[string]bool{}
+			for k := range after.heaps {
+				keys[k] = true
+			}
+			for k := range before.heaps {
+				keys[k] = true
+			}
+			for _, k := range sortedKeys(keys) {
+				srt, ok := e.heapSorts[k]
+				if !ok {
+					continue
+				}
+				a, b := e.heapName(after, k, srt), e.heapName(before, k, srt)
+				if a == b {
+					merged.heaps[k] = a
+				} else {
+					merged.heaps[k] = e.define(k, srt, ite(guard, a, b))
+				}
+			}
+			if after.trace != before.trace {
+				merged.trace = e.define("tr", "Trace", ite(guard, after.trace, before.trace))
+			}
+			e.cur = merged
+		}()
 	}
 	defer func() { e.curReach = savedReach }()
 
@@ -313,19 +351,24 @@ func (e *FuncEnc) externalCall(in ssa.Instruction, full string, f *ssa.Function,
 	e.setResult(res, e.freshResults(f.Name(), rts))
 }
 
-// havocReachable havocs the heaps an external callee may write through `a`.
+// havocReachable havocs what an external callee may write through the pointer
+// `a`: the cells of the pointed object exactly (other cells of the same types
+// keep their value), and, by type, everything reachable through references
+// stored in it.
 func (e *FuncEnc) havocReachable(a ssa.Value) {
 	t := a.Type()
+	av := e.v(a)
 	if mi, ok := a.(*ssa.MakeInterface); ok {
 		t = mi.X.Type()
+		av = e.v(mi.X)
 	}
 	p, ok := t.Underlying().(*types.Pointer)
 	if !ok {
 		return
 	}
 	seen := map[string]bool{}
-	var walk func(t types.Type, d int)
-	walk = func(t types.Type, d int) {
+	var deep func(t types.Type, d int)
+	deep = func(t types.Type, d int) {
 		k := typeKey(t)
 		if seen[k] || d > 6 {
 			return
@@ -334,27 +377,51 @@ func (e *FuncEnc) havocReachable(a ssa.Value) {
 		switch u := t.Underlying().(type) {
 		case *types.Struct:
 			for i := 0; i < u.NumFields(); i++ {
-				walk(u.Field(i).Type(), d+1)
+				deep(u.Field(i).Type(), d+1)
 			}
+			return
 		case *types.Pointer:
-			walk(u.Elem(), d+1)
+			deep(u.Elem(), d+1)
 		case *types.Slice:
-			walk(u.Elem(), d+1)
-			e.heapSorts[e.D.heapKey(u.Elem())] = e.D.heapSort(u.Elem())
-			e.havocHeap(e.cur, e.D.heapKey(u.Elem()))
+			deep(u.Elem(), d+1)
 		case *types.Map:
 			vk, hk, _, _, _, _ := e.mapKeys(u)
 			e.havocHeap(e.cur, vk)
 			e.havocHeap(e.cur, hk)
-			walk(u.Elem(), d+1)
-		default:
+			deep(u.Elem(), d+1)
+		case *types.Interface:
+			return
 		}
 		if _, isStruct := t.Underlying().(*types.Struct); !isStruct {
 			e.heapSorts[e.D.heapKey(t)] = e.D.heapSort(t)
 			e.havocHeap(e.cur, e.D.heapKey(t))
 		}
 	}
-	walk(p.Elem(), 0)
+	// objects of library-defined struct types keep their unexported state to
+	// themselves: module code can only observe it through further library calls
+	if n, ok := p.Elem().(*types.Named); ok && n.Obj().Pkg() != nil && e.W != nil && !e.W.isModulePath(n.Obj().Pkg().Path()) {
+		if _, isStruct := n.Underlying().(*types.Struct); isStruct {
+			e.Assumed["library objects passed by pointer to library functions: their internal state is not module-visible memory"] = true
+			return
+		}
+	}
+	// the pointed object itself: exact cells
+	for _, lf := range e.leaves(p.Elem(), func(s string) string { return s }, 0) {
+		srt := e.heapSorts[lf.key]
+		h := e.heapName(e.cur, lf.key, srt)
+		fresh := e.newSym("ext", e.D.SortOf(lf.typ))
+		e.paramLikeFacts(fresh, lf.typ)
+		e.setHeap(e.cur, lf.key, srt, sx("store", h, lf.addr(av), fresh))
+		// what the cell refers to may be written as well
+		switch u := lf.typ.Underlying().(type) {
+		case *types.Pointer:
+			deep(u.Elem(), 1)
+		case *types.Slice:
+			deep(u.Elem(), 1)
+		case *types.Map:
+			deep(lf.typ, 1)
+		}
+	}
 }
 
 // contractCall: modular call against the callee's contract.
